@@ -16,11 +16,17 @@ def mk_container(entry):
     return nc
 
 
+REST_AS_EMPTY_CONTAINER = [False]     # a rest may be held as None or as an empty NoteContainer; both mean silence
+
+
 def mk_bar(b):
     bar = Bar(txt(b["key"]), tuple(b["meter"]))
     for e in b["entries"]:
         v = build(e["v"])
-        ok = bar.place_rest(v) if e["rest"] else bar.place_notes(mk_container(e), v)
+        if e["rest"] and REST_AS_EMPTY_CONTAINER[0]:
+            ok = bar.place_notes(NoteContainer(), v)
+        else:
+            ok = bar.place_rest(v) if e["rest"] else bar.place_notes(mk_container(e), v)
         if not ok:
             raise Shape("construction refused by the library (entry does not fit)")
     return bar
@@ -66,7 +72,7 @@ def built_ok(p, comp):
                 return False
             for e, ent in zip(b["entries"], bar):
                 if e["rest"]:
-                    if ent[2] is not None:
+                    if ent[2] is not None and len(ent[2]) != 0:
                         return False
                 elif [(n.name, n.octave, n.channel, n.velocity) for n in ent[2]] != [(txt(x["n"]), x["o"], x["ch"], x["vel"]) for x in e["notes"]]:
                     return False
